@@ -31,10 +31,31 @@ Theorem W_json_leaf_total : forall (O : oracle), leaf_total (c09_leaf_of O).
 Proof. exact c09_leaf_total. Qed.
 Print Assumptions W_json_leaf_total.
 
+(* The float law of [leaf_laws] / [float_time_laws] is GUARDED by [num_read_ok]: the statement without the
+   guard (every finite float64 the encoder wrote is read back by the number reader under every decoder option
+   vector, [full_float_law]) is false of the implementation.  Witness, on the model with the observed texts:
+   float64 1e19 is written as the bare integer literal 10000000000000000000 (json forces a fractional digit
+   only below 2^52); under SignedInteger without PreferFloat Decode(&interface{}) of it is an error (parseNumber:
+   an integer literal >= 2^63), and without SignedInteger it comes back as the unsigned integer 10^19.  This is
+   the class of known finding F15-1 (integral floats >= 2^52 are written as integer literals).  The excluded
+   class is exactly [num_read_ok D text = false]; [jwf] carries the guard for IF64 / IF32. *)
+Theorem W_json_float_bareint_refuted :
+  ~ full_float_law (c09_leaf bareint_T) /\
+  (let D := mkdopts false true false false 0 in
+   let L := c09_leaf bareint_T in
+   let o := mkeopts 0 0 false false false false false in
+   f64special 4891288408196988160 = false /\ num_read_ok D (fmt_f64 L 4891288408196988160) = false /\
+   enc_top L o (IF64 4891288408196988160) = [49; 48; 48; 48; 48; 48; 48; 48; 48; 48; 48; 48; 48; 48; 48; 48; 48; 48; 48; 48] /\
+   dec_naked L D 50 (enc_top L o (IF64 4891288408196988160)) = Err EOther /\
+   dec_naked L (mkdopts false false false false 0) 50 (enc_top L o (IF64 4891288408196988160))
+     = Ok (IUint 10000000000000000000, [])).
+Proof. exact float_bareint_refuted. Qed.
+Print Assumptions W_json_float_bareint_refuted.
+
 (* C01 at the wire level.  For every leaf implementation satisfying the leaf laws, encoder option vector,
    decoder option vector, item json can carry ([jwf]: ranges; no tags/extensions; []byte as base64;
    containers are not map keys; keys pairwise different once decoded; an unsigned value >= 2^63 is not read
-   under SignedInteger), position (map key or not; a key position only under a map[interface{}]interface{}
+   under SignedInteger, nor is a float whose text is a bare integer literal of that size: [num_read_ok]), position (map key or not; a key position only under a map[interface{}]interface{}
    target, string-keyed maps go through DecodeStringAsBytes and are covered inside the IMap case),
    indentation level, leading white space [ws] (any bytes < 33), trailing bytes [tl] (a bare number must not
    be followed by another number character), starting depth and fuel linear in the encoding's length:
